@@ -21,7 +21,13 @@ ASSUMPTIONS = C07.ASSUMPTIONS + ["peer discipline as in the property's quantifie
 def query(rng):
     if rng.random() < 0.6:
         names = [(list(rng.choice(VAR_NAMES)), []) for _ in range(rng.randrange(1, 4))]
-        return record(GETVALUES, 0, nv_all(names), rng.choice([0, 0, 3, 8]))
+        body = nv_all(names)
+        if rng.random() < 0.3:
+            # a sloppy client: the body does not end on a pair boundary (a truncated pair, stray alignment bytes counted as content);
+            # the query is still answered (for the pairs that are complete) - the peer waits for that reply like for any other
+            extra = nv(list(rng.choice(VAR_NAMES)), [])
+            body += rng.choice([extra[:rng.randrange(1, len(extra))], [0], [5], [0, 0, 0]])
+        return record(GETVALUES, 0, body, rng.choice([0, 0, 3, 8]))
     return record(rng.choice([0, 12, 100, 255]), rng.choice([0, 1, 9]), [rng.randrange(256) for _ in range(rng.choice([0, 5, 8]))], rng.choice([0, 7]))
 
 
